@@ -41,6 +41,14 @@ Definition world_map (D : nat) (f : form) (M : mat) (ac : bool) (g : gridf) (w :
 Definition field_of_world_map (D : nat) (T : vec -> vec) (ac' : bool) (h : gridf) (x : vec) : vec :=
   vsub (g_from_world D (cubeax ac') h (T (g_to_world D (cubeax ac') h x))) x.
 
+(* what disp(h) of a linear transform has to compute for ANY grid h (flag ac'): the matrix re-expressed in h's cube,
+   i.e. h-cube -> own cube -> M -> own cube -> h-cube, minus x (CompositeTransform.disp does exactly this for composites;
+   proposed repair of SpatialTransform.disp for elementary linear transforms) *)
+Definition disp_reexpressed (D : nat) (f : form) (M : mat) (ac : bool) (g : gridf) (ac' : bool) (h : gridf) (x : vec) : vec :=
+  vsub (gen_pts2 D (cubeax ac) (cubeax ac') (gN D g) (gS D g) (gC D g) (gD D g) (gN D h) (gS D h) (gC D h) (gD D h)
+         (gen_forward D f M
+           (gen_pts2 D (cubeax ac') (cubeax ac) (gN D h) (gS D h) (gC D h) (gD D h) (gN D g) (gS D g) (gC D g) (gD D g) x))) x.
+
 (* a fresh transform is the identity: its tensor, whatever its operand form, maps every point to itself *)
 Definition fresh_identity (c : lclass) (D : nat) : Prop :=
   forall x : nat -> K, form_apply D (gen_fresh_form c) (gen_fresh c D) (vtab D x) = vtab D x.
